@@ -45,3 +45,25 @@ fn c20_itoa_memory_safe_all_usize() {
     kani::cover!(s.len() == 20);
     kani::cover!(s.len() == 1);
 }
+
+// bounded cross-check tying the Verus skeleton to the running code: value correctness of the REAL itoa for n < 100000
+// (also the counterexample finder when the Verus obligation fails: Verus gives no model)
+#[kani::proof]
+#[kani::unwind(7)]
+fn c20_itoa_value_below_100000() {
+    let n: usize = kani::any();
+    kani::assume(n < 100_000);
+    let s = itoa(n);
+    let b = s.as_bytes();
+    assert!(b.len() >= 1 && b.len() <= 5, "itoa(n < 100000): 1..=5 bytes");
+    let mut v: usize = 0;
+    let mut i = 0;
+    while i < b.len() {
+        assert!(b[i] >= b'0' && b[i] <= b'9', "itoa: ASCII digit");
+        v = v * 10 + (b[i] - b'0') as usize;
+        i += 1;
+    }
+    assert!(v == n, "itoa: decimal value of the digits is n");
+    assert!(b.len() == 1 || b[0] != b'0', "itoa: canonical (no leading zero)");
+    kani::cover!(n == 99_999);
+}
